@@ -6,12 +6,10 @@
        the non-ignored edges covers them, so it has at least as many paths as any antichain),
    (4) an optimum with at most #positive-edges paths exists (greedy peeling), so the inclusive range
        [lower bound, |E|] contains the least feasible k.
-   Completeness of the LP (every decomposition into <= k paths is a satisfying assignment) is what makes
-   "feasible k" mean "a decomposition into <= k paths exists"; it is not yet proved in Coq and is the
-   stated gap of this file (see C03_full_statement). *)
+   (5) completeness of the LP: every decomposition into k paths is a satisfying assignment (constraint-free case). *)
 From Coq Require Import List NArith ZArith QArith Bool Arith Lia Permutation.
 Import ListNotations.
-From FP Require Import Lin Blocks BlocksProofs PathEnc PathEncProofs Cover CoverProofs Peel PeelProofs1 PeelProofs2 PeelProofs3
+From FP Require Import Lin Blocks BlocksProofs PathEnc PathEncProofs PathEncComplete Cover CoverProofs Peel PeelProofs1 PeelProofs2 PeelProofs3
                        Search SearchProofs1 SearchProofs2.
 Local Close Scope Q_scope.
 
@@ -49,8 +47,23 @@ Theorem C03_decomposition_with_at_most_npos_paths_exists : forall G P S topo (f 
 Proof. exact greedy_peeling_explains_code. Qed.
 Print Assumptions C03_decomposition_with_at_most_npos_paths_exists.
 
-(* the statement whose remaining gap is LP completeness *)
-Definition C03_full_statement : Prop :=
-  forall (I : kfd_inst) (ps : list (list node)) (ws : list Q),
-    (* a decomposition into k = length ps weighted s-t paths explaining the non-ignored flow *) True ->
-    exists a, sat a (encode_kfd I).
+(* (5) completeness of the LP (no subpath constraints): EVERY decomposition into k weighted simple
+   source-to-sink paths explaining the non-ignored flow is a satisfying assignment.  With (1): the model
+   for k is feasible  <=>  a decomposition into k paths (zero weights allowed) exists, which is what
+   "feasible k" means in the search theorem (2). *)
+Theorem C03_every_decomposition_satisfies_the_lp :
+  forall (I : kfd_inst) (P : N -> list node) (w : N -> Q),
+  PathEncProofs.wf_graph (p_graph (f_base I)) -> p_cons (f_base I) = [] -> p_allow_empty (f_base I) = false ->
+  (forall i, In i (layers (p_k (f_base I))) ->
+     hd_error (P i) = Some (g_src (p_graph (f_base I))) /\
+     last (P i) (g_src (p_graph (f_base I))) = g_snk (p_graph (f_base I)) /\
+     NoDup (P i) /\ incl (EulerProofs1.pairs (P i)) (g_edges (p_graph (f_base I)))) ->
+  (forall i, In i (layers (p_k (f_base I))) -> (0 <= w i <= f_wmax I)%Q /\ (f_int I = true -> is_int (w i))) ->
+  (forall e, In e (g_edges (p_graph (f_base I))) -> mem_edge e (f_ignore I) = false ->
+     (sumq (fun i => w i * indq (mem_edge e (EulerProofs1.pairs (P i)))) (layers (p_k (f_base I))) == lookup_q e (f_flow I) 0)%Q) ->
+  sat (asg P w) (encode_kfd I).
+Proof. exact kfd_complete. Qed.
+Print Assumptions C03_every_decomposition_satisfies_the_lp.
+
+(* remaining gap, stated: completeness in the presence of subpath constraints (the R variables), and
+   monotonicity of feasibility in k (duplicate a path with weight 0) are not proved in Coq. *)
